@@ -309,7 +309,10 @@ def bestbatch_case(case):
         except AttributeError:
             return []   # the attribute is read-only in this implementation: nothing to judge
         rng_ = case["set_after"].get("perturbation_range", rng_)
-    pts, losses = L.history(space, case["n"], case["pattern"])
+    pts, losses = L.history(space, case["n"], case["pattern"] if case["pattern"] != "nan-first" else "distinct")
+    if case["pattern"] == "nan-first":
+        losses = losses.copy()
+        losses[[0, len(losses) // 2]] = np.nan     # failed simulations: never among the lowest-loss points (a NaN ranks last)
     with quiet():
         out = np.asarray(s.sample(space, pts, losses))
     v = []
@@ -405,7 +408,7 @@ def main(ctx):
     # real surrogates
     rc = []
     for sp in ([[0], [1, 11], [4, 8, 3], [5]] if ctx.quick else spaces1 + spaces2):
-        for name, opts in L.COSTLY[2:]:
+        for name, opts in [x for x in L.COSTLY if x[0] != "CORS"]:
             for seed in (S, S + 1):
                 rc.append({"space": sp, "sampler": name, "opts": opts, "bs": 2, "seed": seed, "n": 8})
     for i in range(8):
@@ -426,6 +429,10 @@ def main(ctx):
         for pr0, pr1 in ((6, 2), (6, 3), (2, 6), (11, 2)):
             for seed in range(S, S + (3 if ctx.quick else 8)):
                 bc.append({"space": sp, "opts": {"perturbation_range": pr0, "a": 3.0, "b": 1.0}, "bs": 4, "seed": seed, "n": 9, "pattern": "distinct", "set_after": {"perturbation_range": pr1}})
+    for sp in ([0], [0, 3], [5, 1, 3]):
+        for bsz in (1, 2, 3):
+            for seed in range(S, S + (3 if ctx.quick else 8)):
+                bc.append({"space": sp, "opts": {"perturbation_range": 3, "a": 3.0, "b": 1.0}, "bs": bsz, "seed": seed, "n": 9, "pattern": "nan-first"})
     # long histories (a partial-sort or chunked path would only be taken there)
     for n in (999, 1000, 1001, 2500) + (() if ctx.quick else (5000, 20000)):
         for bs in (4, 10):
